@@ -251,7 +251,7 @@ PROPS = {
         "delivered iff idle > expiry, physical entries (live key instances) == entries within lifetime after every handler call. "
         "Plus linear retention histories (1..2000 intervening requests) and reclamation histories (1..50 abandoned 1 KiB "
         "uploads). Thorough adds the production-clock configuration: every sequence of 5 actions over {next, two other keys, "
-        "pause 260 ms} at expiry 150 ms through the same step oracle (model time = measured time; steps whose idle times are "
+        "pause 260 ms, pause 40 ms} at expiry 150 ms through the same step oracle (model time = measured time; steps whose idle times are "
         "not clearly < 0.4x or > 1.5x the expiry are discarded as inconclusive), retention and reclamation under the real clock. "
         "If advancing the harness-owned clock does not expire the handler's state (an implementation that reads another clock), "
         "those production-clock families (depth 4) replace the fake-clock ones as the deciding exploration. states = canonical "
